@@ -75,6 +75,7 @@ type NATSession struct {
 	DestIP     uint32
 	DestPort   uint16
 	_          uint16
+	_          uint32 // the C struct aligns last_seen to 8 bytes
 	LastSeen   uint64
 	Created    uint64
 	PacketsOut uint64
@@ -85,6 +86,7 @@ type NATSession struct {
 	Protocol   uint8
 	Flags      uint8
 	IsHairpin  uint8
+	_          [4]byte // trailing padding of the C struct (sizeof == 80)
 }
 
 // EIMKey is the key for Endpoint-Independent Mapping lookups
